@@ -66,6 +66,9 @@ CLAIMED = {
  "C15": ("lattice", "exhaustive sub-range sweeps (dense nanosecond ranges, digit-sparse values, carries), bounded grammar enumeration of duration strings vs a reference recogniser, instant lattice, 2^14 metadata shapes with a fixed-point oracle",
          "Durations: every value of dense and digit-sparse sub-ranges (thorough: all 1e9 sub-second values) x carries x sign round-trips exactly; every duration string of <=5 tokens agrees with a hand-written xsd:duration recogniser; instants on the year/date/time/rounding-edge/zone lattice round-trip to the ms-rounded UTC instant and documented lexical forms are accepted, others rejected; every library-generated SP/IdP metadata document and 2^14 generated EntityDescriptor shapes (plus EntitiesDescriptor by value/pointer) re-parse to an equal value and reach a fixed point after one generation.",
          "DESIGN.md §3 C15", "encoding/xml; the reference xsd:duration recogniser in checks/c15.go; values outside the enumerated sub-ranges are not covered"),
+ "C19": ("bfs", "explicit-state breadth-first search over management/login/SSO histories with a reference model in lock-step, a restart (server re-created over a clone of the store) at every position, exhaustive single-fault injection at every store call of every transition, and live sequences on one long-lived server",
+         "From an empty and a seeded store, every history of bounded depth over ~57 requests (users with/without password and cross-named bodies, two services x three metadata variants, shortcuts, logins with right/wrong/empty passwords and a hash-less user, SSO from two issuers with current/no/forged cookie or posted credentials, shortcut launch, session deletion, reads, clock advance) is executed on the real samlidp.Server; the model decides whether an assertion may be emitted, for whom and to which ACS; the registry after each request must equal that of a restarted server; each transition is repeated with a not-found and an I/O error at each store call: no assertion without right, no cookie or assertion for an unstored session, one status line, no hash disclosure, no panic.",
+         "DESIGN.md §3 C19", "harness Store with sequential semantics; bcrypt cost lowered by the harness between requests (same passwords); hidden server state assumed to be the registry (checked) plus live sequences of length <= 3"),
 }
 
 ALL = ["C%02d" % i for i in range(1, 21)]
